@@ -84,17 +84,32 @@ func checkC10(c *Check) {
 	var sshdW, audW *Org
 	var sshdPos, audPos string
 	var all []*ssa.Function
-	all = append(all, run)
-	all = append(all, run.AnonFuncs...)
+	for _, fn := range p.AllRepoFuncs() {
+		if FuncPkgPath(fn) == FuncPkgPath(run) && fn.Blocks != nil {
+			all = append(all, fn)
+		}
+	}
+	// origin of a value, parameters of extracted functions resolved at their call sites
+	upOrg := func(fn *ssa.Function, v ssa.Value) *Org {
+		os := resolveUp(p, fn, v, 0)
+		if len(os) == 0 {
+			return nil
+		}
+		for _, o := range os[1:] {
+			if !sameValue(o, os[0]) {
+				return &Org{K: "phi", Sub: os}
+			}
+		}
+		return os[0]
+	}
 	for _, fn := range all {
-		fr := NewResolver(p)
 		allInstrs(fn, func(in ssa.Instruction) {
 			switch x := in.(type) {
 			case *ssa.Call:
 				if sc := staticCallee(x.Common()); sc != nil && sc.Name() == "NewSshdProcessor" && InRepo(sc) {
 					for _, a := range x.Call.Args {
 						if typeName(a.Type()) == "*auditevent.EventWriter" {
-							sshdW = fr.Of(a)
+							sshdW = upOrg(fn, a)
 							sshdPos = p.InstrPos(in)
 						}
 					}
@@ -102,7 +117,7 @@ func checkC10(c *Check) {
 			case *ssa.Store:
 				if fa, ok := x.Addr.(*ssa.FieldAddr); ok && fieldName(fa.X.Type(), fa.Field) == "EventW" {
 					if n := namedOf(fa.X.Type()); n != nil && n.Obj().Name() == "Auditd" {
-						audW = fr.Of(x.Val)
+						audW = upOrg(fn, x.Val)
 						audPos = p.InstrPos(in)
 					}
 				}
